@@ -69,3 +69,6 @@ Definition nfa_run (early : bool) (l : list tag) : list phase :=
   fold_left (nfa_step early) l (silent_closure early [PhStart]).
 (* one complete API call: starts and ends in PhStart *)
 Definition accepts (early : bool) (l : list tag) : bool := existsb (phase_eqb PhStart) (nfa_run early l).
+
+(* a call interrupted by a kill: the events seen so far are a prefix of some path *)
+Definition accepts_prefix (early : bool) (l : list tag) : bool := negb (is_nil (nfa_run early l)).
